@@ -1,4 +1,4 @@
-import HgVerif.Model.RefLinkStruct
+import HgVerif.Model.RefLinkSib
 import HgVerif.Driver.Proto
 /-! Model driver for C13: same line protocol as `harness/drv_ref.cpp`.
 Consumer ids `0 .. ncons-1` are the counting consumers (consumer 1 is `Unchecked`); id `ncons` is
@@ -15,6 +15,9 @@ structure DS where
   cmp : Bool := false
   /-- structured shapes (`tsb2`, `tsb3`, `tsl2`, `tsbw2`): number of fields; `0` = a plain shape -/
   nF : Nat := 0
+  /-- sibling-children shapes (`tsf`, `tle`, `tsx`, `tsm`, `tssf`): the designation code of every target letter
+      (`Desig.code 4`); `[]` = the letters are the target numbers -/
+  codes : List Nat := []
   /-- `tsbw2`: bundles assembled at wiring time - `r` / `n` are not observed -/
   wired : Bool := false
   /-- `cfg ... tree:<T>` -/
@@ -41,9 +44,15 @@ def mkStateS (nF ncons : Nat) (inner innerRef : Bool) (nT : Nat) : State :=
     (if inner && ncons ≥ 2 then fieldLinks nF 1 else [])
     (if innerRef && ncons ≥ 2 then fieldLinks nF 1 else [])
 
+/-- target number of letter `t` -/
+def DS.code (d : DS) (t : Nat) : Nat := if d.codes.isEmpty then t else d.codes.getD t t
+
+/-- number of targets of the state -/
+def DS.stateNT (d : DS) : Nat := if d.codes.isEmpty then d.nT else (d.codes.foldl max 0) + 1
+
 def DS.fresh (d : DS) : DS :=
   { d with st := { chain := d.tree,
-                   s := if d.nF == 0 then mkState d.shape d.ncons d.inner d.innerRef d.nT
+                   s := if d.nF == 0 then mkState d.shape d.ncons d.inner d.innerRef d.stateNT
                         else mkStateS d.nF d.ncons d.inner d.innerRef d.nT } }
 
 def fieldNames : List String := ["x", "y", "z"]
@@ -269,7 +278,7 @@ def parseCycle (d : DS) (ws : List String) : Option CyParse :=
           | _, _ => none
         | _, _ =>
           if d.nF != 0 then none else
-          match targetIdx k d.nT with
+          match (targetIdx k d.nT).map d.code with
           | some i =>
             if cy.d.any (·.1 == i) then none
             else (parseSpec d.shape v).map fun dl => { cy with d := cy.d ++ [(i, dl)] }
@@ -317,20 +326,30 @@ def cycleLine (d : DS) (cy : CyParse) : DS × String :=
   let r := cycleC d.st inp
   let s' := r.1.s
   let names := ["ra", "rb", "rc", "rd"]
-  let recs := (List.range s'.nT).map fun t =>
-    s!" {names.getD t "r?"}=" ++ (if (s'.targets t).lmt == s'.now then ownText d.shape (s'.targets t) else "-")
+  let recs := (List.range d.nT).map fun t =>
+    let tg := s'.targets (d.code t)
+    s!" {names.getD t "r?"}=" ++ (if tg.lmt == s'.now then ownText d.shape tg else "-")
   let seen := fun (c : Nat) => (r.2.find? (·.1 == c)).map (·.2)
   let cons := (List.range d.ncons).map fun c =>
     " | " ++ (match seen c with
       | some v => seenText d.shape v
       | none => "-")
-  ({ d with st := { r.1 with s := tabulate r.1.s (d.ncons + 1) d.nT } },
+  ({ d with st := { r.1 with s := tabulate r.1.s (d.ncons + 1) d.stateNT } },
    s!"r={b2s (s'.refLmt == s'.now)}" ++ (if d.chained then s!" n={published d.st.chain r.1.chain}" else "") ++
    String.join recs ++ " rs=" ++ recText d.shape (seen d.ncons) ++ String.join cons)
 
 def shapeOf (s : String) : Option Shape :=
-  if s == "ts" then some .ts else if s == "tss" then some .tss else if s == "tsd" then some .tsd
+  if s == "ts" || s == "tsf" || s == "tle" || s == "tsx" || s == "tsm" then some .ts
+  else if s == "tss" || s == "tssf" then some .tss else if s == "tsd" then some .tsd
   else if s == "tsb2" || s == "tsb3" || s == "tsl2" || s == "tsbw2" then some .ts else none
+
+/-- sibling-children shapes: the designation (output, child) of the letters a..d, as codes with `W = 4` -/
+def codesOf (s : String) : List Nat :=
+  let c := fun (o p : Nat) => Desig.code 4 { out := o, path := p }
+  if s == "tsf" || s == "tle" || s == "tssf" then [c 0 0, c 0 1, c 0 2, c 0 3]      -- children of ONE output
+  else if s == "tsx" then [c 0 0, c 1 0, c 2 0, c 3 0]                              -- child 0 of four outputs
+  else if s == "tsm" then [c 0 0, c 0 1, c 1 0, c 2 0]                              -- two siblings, two independent
+  else []
 
 def fieldsOf (s : String) : Nat :=
   if s == "tsb3" then 3 else if s == "tsb2" || s == "tsl2" || s == "tsbw2" then 2 else 0
@@ -353,7 +372,8 @@ def step (d : DS) (ws : List String) : DS × String :=
         if (n == "1" || n == "2" || n == "3") && (stage == "direct" || stage == "pass" || stage == "inner" || stage == "innerref") then
           (({ shape := shape, ncons := n.toNat!, inner := stage == "inner" || stage == "innerref",
               innerRef := stage == "innerref", cmp := more == ["cmp"], nF := fieldsOf sh, wired := sh == "tsbw2",
-              chained := chained, tree := tree,
+              chained := chained, codes := codesOf sh,
+              tree := if (codesOf sh).isEmpty then tree else tree.mapLeaves fun t => (codesOf sh).getD t t,
               arity := tp.arity, nT := tp.nT } : DS).fresh, "ok")
         else bad
       | _, _ => bad
